@@ -33,43 +33,45 @@ TCol == /\ l <= Len(Tr) /\ Ev.e = "Col" /\ Step
         /\ X' = Ev.d /\ v' = Ev.piv /\ type' = Ev.type
         /\ Nn(Ev.d) >= 2
 
-St == Stats(X)
 \* cancellation slack in units of 1e-9 of a quantity of the form (double near piv) - piv, times N
 Cancel(n) == ((AbsI(v) \div 1000) * n) \div 1000 + 1000
+\* (every action binds st == Stats(X) once: TLC does not memoise operator applications)
 \* exact statistic behind the stored scaling, as the integer the harness projects onto
-RawS2 == St.S2 + 2 * v * St.S1 + St.N * v * v                 \* sum (piv + d)^2 ; only for RMS columns (|piv| <= 4000)
-ScaleClaim == CASE type = 1 -> St.SSD                        \* sdev^2  * N(N-1) / u^2
-                [] type = 2 -> RawS2                         \* rms^2   * N      / u^2
-                [] type = 3 -> St.SSD                        \* scale^4 * N(N-1) / u^2   (Pareto: scale = sqrt(sdev))
-                [] type = 4 -> St.range                      \* range / u
-                [] type = 5 -> St.S1                         \* (mean / u - piv) * N
-                [] OTHER    -> 1                             \* centring only: scaling stored as 1
+RawS2(st) == st.S2 + 2 * v * st.S1 + st.N * v * v            \* sum (piv + d)^2 ; only for RMS columns (|piv| <= 4000)
+ScaleClaim(st) == CASE type = 1 -> st.SSD                    \* sdev^2  * N(N-1) / u^2
+                    [] type = 2 -> RawS2(st)                 \* rms^2   * N      / u^2
+                    [] type = 3 -> st.SSD                    \* scale^4 * N(N-1) / u^2   (Pareto: scale = sqrt(sdev))
+                    [] type = 4 -> st.range                  \* range / u
+                    [] type = 5 -> st.S1                     \* (mean / u - piv) * N
+                    [] OTHER    -> 1                         \* centring only: scaling stored as 1
 \* the column's exact scale is 0 (no spread, resp. zero RMS / zero mean): the transform must be exactly 0
-ExactZero == CASE type \in {1, 3} -> St.SSD = 0
-               [] type = 2 -> AbsI(v) <= 4000 /\ RawS2 = 0
-               [] type = 4 -> St.range = 0
-               [] type = 5 -> AbsI(v) <= 1000000 /\ v * St.N + St.S1 = 0
-               [] OTHER -> FALSE
-ExpCn(d) == SeqOf(LAMBDA i : IF d[i] = MISSING THEN 0 ELSE St.N * d[i] - St.S1, Len(d))
+ExactZero(st) == CASE type \in {1, 3} -> st.SSD = 0
+                   [] type = 2 -> AbsI(v) <= 4000 /\ RawS2(st) = 0
+                   [] type = 4 -> st.range = 0
+                   [] type = 5 -> AbsI(v) <= 1000000 /\ v * st.N + st.S1 = 0
+                   [] OTHER -> FALSE
 
 \* stored average
 TAvg == /\ l <= Len(Tr) /\ Ev.e = "Avg" /\ Step /\ Keep
-        /\ Ev.s1 = St.S1
-        /\ Ev.s1r <= AbsI(St.S1) + Cancel(St.N)
+        /\ LET st == Stats(X) IN
+           /\ Ev.s1 = st.S1
+           /\ Ev.s1r <= AbsI(st.S1) + Cancel(st.N)
 
 \* stored scaling, through the power at which it is rational
 TScale == /\ l <= Len(Tr) /\ Ev.e = "Scale" /\ Step /\ Keep
-          /\ Ev.sc = ScaleClaim
-          /\ IF type = 5 THEN Ev.ra <= AbsI(St.S1) + Cancel(St.N)          \* absolute, 1e-9 units (mean: cancellation against the pivot)
-                         ELSE Ev.rr <= 1000 * Pw(type)                    \* relative, 1e-12 units: 1e-9 per power
-          /\ (type \in {1, 2, 3, 4} /\ ~ExactZero) => Ev.pos = 1
+          /\ LET st == Stats(X) claim == ScaleClaim(st) IN
+             /\ Ev.sc = claim
+             /\ IF type = 5 THEN Ev.ra <= AbsI(st.S1) + Cancel(st.N)       \* absolute, 1e-9 units (mean: cancellation against the pivot)
+                            ELSE Ev.rr <= 1000 * Pw(type)                 \* relative, 1e-12 units: 1e-9 per power
+             /\ (type \in {1, 2, 3, 4} /\ ~ExactZero(st)) => Ev.pos = 1
 
 \* transformed training cells
 TCells == /\ l <= Len(Tr) /\ Ev.e = "Cells" /\ Step /\ Keep
           /\ Ev.fin = 1
-          /\ IF ExactZero THEN Ev.zero = 1
-             ELSE /\ Ev.cn = ExpCn(X)
-                  /\ Ev.cnr <= 2 * St.N * 800 + Cancel(St.N)              \* |N d - S1| <= 2 * N * 400
+          /\ LET st == Stats(X) IN
+             IF ExactZero(st) THEN Ev.zero = 1
+             ELSE /\ Ev.cn = SeqOf(LAMBDA i : IF X[i] = MISSING THEN 0 ELSE st.N * X[i] - st.S1, Len(X))
+                  /\ Ev.cnr <= 2 * st.N * 800 + Cancel(st.N)              \* |N d - S1| <= 2 * N * 400
           /\ (PropOnly \/ Ev.mz = 1)                                      \* Impl: a MISSING cell is left at 0 by the fit
 
 \* stored transform applied to the training matrix reproduces the training transform (relative difference, 1e-12 units)
@@ -79,9 +81,10 @@ TSame == /\ l <= Len(Tr) /\ Ev.e = "Same" /\ Step /\ Keep
 \* stored transform applied to new rows: the same affine map
 TNew == /\ l <= Len(Tr) /\ Ev.e = "New" /\ Step /\ Keep
         /\ Ev.fin = 1
-        /\ IF ExactZero THEN Ev.zero = 1
-           ELSE /\ Ev.cn = SeqOf(LAMBDA k : St.N * Ev.ny[k] - St.S1, Len(Ev.ny))
-                /\ Ev.cnr <= 2 * St.N * 1600 + Cancel(St.N)
+        /\ LET st == Stats(X) IN
+           IF ExactZero(st) THEN Ev.zero = 1
+           ELSE /\ Ev.cn = SeqOf(LAMBDA k : st.N * Ev.ny[k] - st.S1, Len(Ev.ny))
+                /\ Ev.cnr <= 2 * st.N * 1600 + Cancel(st.N)
 
 \* option -1 copies; tensor = block by block (bitwise comparison done by the harness, flag checked here)
 TCopy == /\ l <= Len(Tr) /\ Ev.e = "Copy" /\ Step /\ Keep /\ Ev.equal = 1
